@@ -133,6 +133,7 @@ def watchdog_worker(analysis: Analysis, ctxspec) -> list:
     for out in outs:
         kind, s, v = out
         atoms = set()
+        boundary = None
         for f in s.facts:
             if f[0] != "atom" or f[1][0] != "cmp":
                 continue
@@ -154,12 +155,18 @@ def watchdog_worker(analysis: Analysis, ctxspec) -> list:
             factor = 2 if "binop:Mult" in dl and "(c, int, 2)" in dl else 1
             if uses_rt and "binop:Add" in dl:
                 atoms.add((which, factor, "expired" if expired else "pending"))
+                if which == "check" and factor == 1:
+                    # which side of the probe test does `last probe + reconnect_timeout == now` fall on?
+                    if (op == "GtE" and truth) or (op == "Lt" and not truth):
+                        boundary = "skips"
+                    elif (op == "LtE" and truth) or (op == "Gt" and not truth):
+                        boundary = "probes"
         probe = any(e.kind == "append" and e.args and "message:Message.encode" in repr(e.args[0].key()) for e in s.events) or any(e.kind == "opaque" and "add_job" in e.name for e in s.events)
         restarts = any(e.kind == "store" and e.name == "tcp_check_timer" and e.args and "time.time" in repr(e.args[0].key()) for e in s.events)
         subs = [e.args[0] for e in s.events if e.kind == "store" and e.name == "sub_type" and e.args]
         is_version = bool(subs) and "I_VERSION" in repr(subs[-1].key())
         to_gw = any(e.kind == "store" and e.name == "child_id" and e.args and isinstance(e.args[0], Const) and e.args[0].value == 255 for e in s.events) and not any(e.kind == "store" and e.name == "node_id" and e.args and not (isinstance(e.args[0], Const) and e.args[0].value == 0) for e in s.events)
-        rows.append({"kind": kind, "exc": v.cls.__name__ if kind == "raise" else None, "atoms": sorted(atoms), "probe": probe, "restarts_check": restarts, "is_version": is_version, "to_gw": to_gw, "witness": describe_path(out, 14)})
+        rows.append({"kind": kind, "exc": v.cls.__name__ if kind == "raise" else None, "atoms": sorted(atoms), "check_boundary": boundary, "probe": probe, "restarts_check": restarts, "is_version": is_version, "to_gw": to_gw, "witness": describe_path(out, 14)})
     for r in rows:
         r["atoms"] = [tuple(a) for a in r["atoms"]]
     return rows
@@ -181,14 +188,28 @@ def async_check_worker(analysis: Analysis, ctxspec) -> list:
         closed = any(e.kind == "call" and e.name == "exttransport.close" for e in after)
         recon = any(e.kind == "call" and e.name == "?callable" and isinstance(e.recv, V) and "conn_lost_callback" in repr(e.recv.key()) for e in after)
         rearm = [e for e in s.events if e.kind == "store" and e.name == "cancel_check_conn" and e.args and "asyncio.Handle.cancel" in repr(e.args[0].key())]
-        cb_ok = delay_ok = False
+        cb_ok = delay_ok = delay_strict = False
         for e in rearm:
             h = getattr(e.args[0], "recv", None)
             hargs = list(getattr(h, "args", []) or [])
             if len(hargs) >= 2:
-                delay_ok = repr(rt) in repr(hargs[0].key()) or hargs[0].key() == rt
+                dk = hargs[0].key()
+                delay_ok = repr(rt) in repr(dk) or dk == rt
+                # the base check probes only when MORE than reconnect_timeout has passed since the last probe
+                # (`check_timer + reconnect_timeout >= now` returns early): a timer firing exactly reconnect_timeout
+                # later lands on that boundary and every other tick is wasted - the delay must exceed the timeout
+                import re as _re
+
+                m = _re.match(r"^binop:Add:(.*):\('c', '(?:float|int)', ([0-9.eE+-]+)\)$", dk[1]) if isinstance(dk, tuple) and dk[0] == "u" else None
+                m2 = _re.match(r"^binop:Add:\('c', '(?:float|int)', ([0-9.eE+-]+)\):(.*)$", dk[1]) if isinstance(dk, tuple) and dk[0] == "u" else None
+                if m and m.group(1) == repr(rt):
+                    delay_strict = float(m.group(2)) > 0
+                elif m2 and m2.group(2) == repr(rt):
+                    delay_strict = float(m2.group(1)) > 0
+                else:
+                    delay_strict = False
                 cb_ok = "check_connection" in repr(hargs[1].key()) and repr(gw.key()) in repr(hargs[1].key())
-        rows.append({"kind": kind, "dropped": bool(dropped), "closed": closed, "reconnect": recon, "rearmed": bool(rearm), "rearm_cb": cb_ok, "rearm_delay": delay_ok, "witness": describe_path(out, 16)})
+        rows.append({"kind": kind, "dropped": bool(dropped), "closed": closed, "reconnect": recon, "rearmed": bool(rearm), "rearm_cb": cb_ok, "rearm_delay": delay_ok, "rearm_strict": delay_strict, "witness": describe_path(out, 16)})
     return rows
 
 
@@ -351,6 +372,12 @@ def watchdog_structure(analysis: Analysis, res: RuleResult) -> None:
     alive = [r for r in arows if not r["dropped"] and r["kind"] == "val"]
     ok_s = bool(silent) and all(r["kind"] != "val" or (r["closed"] and r["reconnect"] and not r["rearmed"]) for r in silent) and any(r["kind"] == "val" for r in silent)
     ok_a = bool(alive) and all(r["rearmed"] and r["rearm_cb"] and r["rearm_delay"] for r in alive)
+    # the re-arm period against the probe test of the base check: when a tick that comes exactly reconnect_timeout
+    # after the last probe is skipped by that test (`>=`), the period must exceed the timeout
+    wrows = common.pmap(analysis, watchdog_worker, [(analysis.versions[-1], "tcp", "async")])[0]
+    skips_on_boundary = any(r.get("check_boundary") == "skips" for r in wrows) and not any(r.get("check_boundary") == "probes" for r in wrows)
+    ok_p = (not skips_on_boundary) or all(r["rearm_strict"] for r in alive if r["rearmed"])
+    res.add("C20-R5", "gateway_tcp:AsyncTCPGateway.check_connection / the re-arm period exceeds reconnect_timeout (a tick exactly on the probe deadline is skipped by the base check)", ok_p, common.where(analysis, a, a.node), "call_later(reconnect_timeout + d, ...) with d > 0" if ok_p else "the check is re-armed after exactly reconnect_timeout, but the base check probes only when MORE than that has passed since the last probe: every other tick is skipped, a silent link is dropped after about 3 x reconnect_timeout instead of 2 x", next((r["witness"] for r in alive if r["rearmed"] and not r["rearm_strict"]), None))
     bad = next((r["witness"] for r in silent if r["kind"] == "val" and not (r["closed"] and r["reconnect"] and not r["rearmed"])), None) or next((r["witness"] for r in alive if not (r["rearmed"] and r["rearm_cb"] and r["rearm_delay"])), None)
     res.add("C20-R5", "gateway_tcp:AsyncTCPGateway.check_connection / re-arms itself and, when silent, closes and reconnects", ok_s and ok_a, common.where(analysis, a, a.node), f"{len(silent)} silent-link path(s): close + conn_lost_callback, no re-arm; {len(alive)} live path(s): call_later(reconnect_timeout + d, self.check_connection) published as cancel_check_conn" if ok_s and ok_a else "a silent link is not closed and handed to the reconnect callback, or a live link does not re-arm the check with the reconnect timeout", bad)
 
